@@ -1,0 +1,27 @@
+//go:build verif
+
+package goja
+
+// Contracts for property C05 (canonical Number representation, conversions).
+// Syntax: see /verif/DESIGN.md section 4. Checked by /verif/bin/gvc.
+
+//@ axiom forall i int :: 0 <= i && i < 256 ==> intCache[i] == Value(valueInt(i-256)) [intCache]
+//@ axiom specFloatValueIs(_negativeZero, math.Copysign(0, -1)) [negzero]
+//@ axiom specIsNaNValue(_NaN) [nan]
+//@ axiom specFloatValueIs(_positiveInf, math.Inf(1)) [posinf]
+//@ axiom specFloatValueIs(_negativeInf, math.Inf(-1)) [neginf]
+
+//@ func intToValue
+//@   ensures specCanon(result) [canon]
+//@   ensures specNumIs(result, float64(i)) [value]
+//@   assigns nothing
+
+//@ func floatToInt
+//@   ensures ok ==> float64(result) == f && result >= -maxInt && result <= maxInt && !(f == 0 && math.Signbit(f)) [ok-exact]
+//@   ensures !ok ==> !(f == math.Trunc(f) && f >= -maxInt && f <= maxInt) || (f == 0 && math.Signbit(f)) [notok-nonint]
+//@   assigns nothing
+
+//@ func floatToValue
+//@   ensures specCanon(result) [canon]
+//@   ensures specNumIs(result, f) [value]
+//@   assigns nothing
